@@ -17,6 +17,7 @@ Inductive href := HSelf | HOf (c k: nat).
 Inductive res := ROk (v: nat) | RErr (e: nat).
 Inductive ans := APend | AReady (r: res) | AItem (v: nat) | AEnd | APanic.
 Definition is_pend (a: ans) := match a with APend => true | _ => false end.
+Lemma APend_not_panic : APend <> APanic. Proof. discriminate. Qed.
 Record step := { fires : list href; answer : ans }.
 Inductive wk := WSub (slot: nat) | WPar (pid: nat).
 Inductive out := OVals (vs: list nat) | OOk (vs: list nat) | OErr (e: nat) | OErrs (es: list nat) | OSome (key: option nat) (vs: list nat) | ONone.
@@ -2412,20 +2413,42 @@ Section Scan.
      Fixed combinators (member = slot), selective strategy, children whose scripts never panic.  One poll: it does not unwind, no script grows, and
      if it returns Pending then every child that was awaited and signalled when the poll began has consumed one step of its script. *)
   Section Live.
-    Hypothesis member_id : forall s i, member s i = i.
+    (* occ: the slot holds a member.  Fixed-arity instances: every slot, always, and member s i = i.  Groups: the occupied slab entries; a slot is
+       vacated when its member completes or is removed and may later be occupied by another member. *)
+    Variable occ : St -> nat -> bool.
+    Hypothesis aw_occ : forall s k, Q s -> k < slots s -> awaited s k = true -> occ s k = true.
+    Hypothesis member_inj : forall s i j, Q s -> i < slots s -> j < slots s -> occ s i = true -> occ s j = true -> member s i = member s j -> i = j.
+    (* no step of a poll puts a member into a slot or moves one: a slot occupied afterwards was occupied before, by the same member *)
+    (* nmem: the number of members there have ever been (fixed arity: the number of slots); scripts and handle lists are indexed by member *)
+    Variable nmem : St -> nat.
+    Hypothesis member_lt : forall s k, Q s -> k < slots s -> occ s k = true -> member s k < nmem s.
+    Definition stable (s s': St) := nmem s' = nmem s /\ forall k, k < slots s -> occ s' k = true -> occ s k = true /\ member s' k = member s k.
+    Hypothesis handle_stable : forall s i a, Q s -> awaited s i = true -> i < slots s -> stable s (fst (fst (handle s i a))).
+    Hypothesis order_stable : forall s is s1, Q s -> order s = Some (is, s1) -> stable s s1.
+    Hypothesis finish_stable : forall s, Q s -> stable s (fst (finish s)).
+    Hypothesis after_stable : forall s, Q s -> stable s (after_stop s).
+    Lemma stable_refl s : stable s s. Proof. split; [reflexivity|]. intros k _ H. auto. Qed.
+    Lemma stable_trans s s' s'' : slots s' = slots s -> stable s s' -> stable s' s'' -> stable s s''.
+    Proof. intros E [A0 A] [B0 B]. split; [congruence|]. intros k Hk H. destruct (B k ltac:(lia) H) as [B1 B2]. destruct (A k Hk B1) as [A1 A2]. split; [exact A1|congruence]. Qed.
     Hypothesis abort_panic : forall s i a s' e, handle s i a = (s', Abort, e) -> a = APanic.
+    (* okans: the answers the children's scripts may contain (never a panic; an instance may exclude more, e.g. End from a future) *)
+    Variable okans : ans -> Prop.
+    Hypothesis okans_np : forall a, okans a -> a <> APanic.
+    Hypothesis okans_pend : okans APend.
     (* TS: a state predicate that holds between operations as long as every poll so far returned Pending; US: its counterpart inside a scan *)
     Variable TS US : St -> Prop.
-    Hypothesis US_cont : forall s i a s' e, US s -> awaited s i = true -> handle s i a = (s', Cont, e) -> US s'.
+    Hypothesis US_cont : forall s i a s' e, okans a -> Q s -> i < slots s -> US s -> awaited s i = true -> handle s i a = (s', Cont, e) -> US s'.
     Hypothesis TS_order : forall s is s1, TS s -> order s = Some (is, s1) -> US s1.
     Hypothesis US_finish : forall s, Q s -> US s -> snd (finish s) = None -> TS (fst (finish s)).
     Hypothesis US_endp : any_per_iter = true -> forall s, US s -> TS s.
     Hypothesis TS_order_some : forall s, TS s -> order s <> None.
 
     Definition rem (w: world) (m: nat) := length (nth m (scripts w) []).
-    Definition nopanic (sc: list (list step)) := forall m st, In st (nth m sc []) -> answer st <> APanic.
-    Definition HT (w: world) := length (handed w) = N w /\ length (g_polled w) = N w /\
-      forall c, c < N w -> (forall h, In h (nth c (handed w) []) -> h = WSub c) /\ (polled w c = true -> nth c (handed w) [] <> []).
+    Definition nopanic (sc: list (list step)) := forall m st, In st (nth m sc []) -> okans (answer st).
+    Definition HT (w: world) := length (handed w) = nmem (cs w) /\ length (g_polled w) = N w /\
+      forall c, c < N w -> occ (cs w) c = true ->
+        (forall h, In h (nth (member (cs w) c) (handed w) []) -> h = WSub c) /\
+        (polled w c = true -> nth (member (cs w) c) (handed w) [] <> []).
     Definition LiveI (w: world) := sel w = true /\ nopanic (scripts w) /\ HT w.
 
     Lemma do_fire_live w j : cs (do_fire w j) = cs w /\ sel (do_fire w j) = sel w /\ scripts (do_fire w j) = scripts w /\
@@ -2453,9 +2476,9 @@ Section Scan.
       intros A B C D E (H1 & H2 & H3 & H4 & H5). unfold LiveI, HT, polled, N in *. rewrite A, B, C, D, E. repeat split; auto; apply H5; auto.
     Qed.
 
-    Lemma pop_nopanic w m : nopanic (scripts w) -> answer (fst (pop w m)) <> APanic /\ nopanic (snd (pop w m)).
+    Lemma pop_nopanic w m : nopanic (scripts w) -> okans (answer (fst (pop w m))) /\ nopanic (snd (pop w m)).
     Proof.
-      intros Hn. unfold pop. destruct (nth m (scripts w) []) as [|x rest] eqn:E; cbn [fst snd]; [split; [discriminate|exact Hn]|].
+      intros Hn. unfold pop. destruct (nth m (scripts w) []) as [|x rest] eqn:E; cbn [fst snd]; [split; [exact okans_pend|exact Hn]|].
       split; [apply (Hn m); rewrite E; left; reflexivity|].
       intros k st Hin. destruct (Nat.eq_dec m k) as [->|Hne].
       - assert (Hl : k < length (scripts w)).
@@ -2476,87 +2499,95 @@ Section Scan.
     Definition usmono (w: world) (r: vres) : Prop :=
       US (cs w) -> match r with VCont w' => US (cs w') | VPending w' => any_per_iter = true /\ US (cs w') | _ => True end.
     Definition vlive (w: world) (i: nat) (r: vres) : Prop :=
-      LiveI (vworld r) /\ N (vworld r) = N w /\ (forall k, k <> i -> rem (vworld r) k = rem w k) /\ rem (vworld r) i = rem w i - 1 /\
-      dropped (vworld r) = dropped w /\ finished (vworld r) = finished w /\ Q (cs (vworld r)) /\ awmono w r /\ usmono w r /\ (forall w', r <> VAbort w').
+      LiveI (vworld r) /\ N (vworld r) = N w /\ (forall k, k <> member (cs w) i -> rem (vworld r) k = rem w k) /\
+      rem (vworld r) (member (cs w) i) = rem w (member (cs w) i) - 1 /\
+      dropped (vworld r) = dropped w /\ finished (vworld r) = finished w /\ Q (cs (vworld r)) /\ awmono w r /\ usmono w r /\ (forall w', r <> VAbort w') /\
+      stable (cs w) (cs (vworld r)).
 
     Lemma poll_child_live w i pid : LiveI w -> Q (cs w) -> i < N w -> aw w i = true -> vlive w i (poll_child w i pid).
     Proof.
-      intros (Hsel & Hnp & HL & HP & HH) HQ Hi Haw. unfold poll_child. rewrite Hsel, member_id.
-      pose proof (pop_nopanic w i Hnp) as [Hans Hnp']. pose proof (pop_rem w i) as [Hro Hri].
-      destruct (pop w i) as [stp sc'] eqn:Epop. cbn [fst snd] in *.
+      intros (Hsel & Hnp & HLn & HP & HH) HQ Hi Haw. unfold poll_child. rewrite Hsel.
+      set (m := member (cs w) i).
+      pose proof (pop_nopanic w m Hnp) as [Hans Hnp']. pose proof (pop_rem w m) as [Hro Hri].
+      destruct (pop w m) as [stp sc'] eqn:Epop. cbn [fst snd] in *.
       match goal with |- context[fires_of ?W _ _] => set (w1 := W) end.
-      destruct (fires_of_live w1 i (fires stp)) as (A & B & C & D & E & F & G).
-      set (w2 := fires_of w1 i (fires stp)) in *.
+      destruct (fires_of_live w1 m (fires stp)) as (A & B & C & D & E & F & G).
+      set (w2 := fires_of w1 m (fires stp)) in *.
       assert (C1 : cs w1 = cs w) by reflexivity.
+      assert (Hocc : occ (cs w) i = true) by (apply aw_occ; auto).
+      assert (Hm : m < length (handed w)) by (rewrite HLn; apply member_lt; auto).
       assert (L2 : sel w2 = true /\ nopanic (scripts w2) /\ HT w2).
       { split; [rewrite B; exact Hsel|]. split; [rewrite C; exact Hnp'|].
-        unfold HT, polled, N. rewrite A, D, E. cbn. rewrite !upd_length. split; [exact HL|]. split; [exact HP|].
-        intros c Hc. destruct (HH c Hc) as [H1 H2]. destruct (Nat.eq_dec i c) as [->|Hne].
-        - rewrite !nth_upd_same by (unfold N in *; lia). split; [|intros _; destruct (nth c (handed w) []); discriminate].
+        unfold HT, polled, N. rewrite A, D, E, C1. cbn. rewrite !upd_length. split; [exact HLn|]. split; [exact HP|].
+        intros c Hc Hoc. destruct (HH c Hc Hoc) as (H1 & H2). destruct (Nat.eq_dec i c) as [->|Hne].
+        - fold m. rewrite !nth_upd_same by (unfold N in *; lia). split; [|intros _; destruct (nth m (handed w) []); discriminate].
           intros h Hin. apply in_app_or in Hin as [Hin|[<-|[]]]; auto.
-        - rewrite !nth_upd_other by exact Hne. split; auto. }
+        - assert (Hmm : member (cs w) c <> m) by (intros X; apply Hne; symmetry; apply (member_inj (cs w)); auto).
+          rewrite (nth_upd_other _ _ _ _ _ (fun e => Hmm (eq_sym e))). rewrite (nth_upd_other _ _ _ _ _ Hne). split; auto. }
       pose proof (handle_slots (cs w2) i (answer stp)) as Hsl.
       assert (HQ2 : Q (fst (fst (handle (cs w2) i (answer stp))))).
       { apply Q_handle; rewrite A, C1; auto. }
-      destruct (handle (cs w2) i (answer stp)) as [[s' a] eh] eqn:Eh. cbn [fst] in Hsl, HQ2.
+      assert (Hst : stable (cs w) (fst (fst (handle (cs w2) i (answer stp))))) by (rewrite A, C1; apply handle_stable; auto).
+      destruct (handle (cs w2) i (answer stp)) as [[s' a] eh] eqn:Eh. cbn [fst] in Hsl, HQ2, Hst.
       assert (Hfin : forall w3, cs w3 = s' -> sel w3 = sel w2 -> scripts w3 = scripts w2 -> handed w3 = handed w2 -> g_polled w3 = g_polled w2 ->
                 dropped w3 = dropped w2 -> finished w3 = finished w2 ->
-                LiveI w3 /\ N w3 = N w /\ (forall k, k <> i -> rem w3 k = rem w k) /\ rem w3 i = rem w i - 1 /\ dropped w3 = dropped w /\
-                finished w3 = finished w /\ Q (cs w3)).
-      { intros w3 E1 E2 E3 E4 E5 E6 E7. destruct L2 as (S2 & P2 & H2a & H2b & H2c).
+                LiveI w3 /\ N w3 = N w /\ (forall k, k <> m -> rem w3 k = rem w k) /\ rem w3 m = rem w m - 1 /\ dropped w3 = dropped w /\
+                finished w3 = finished w /\ Q (cs w3) /\ stable (cs w) (cs w3)).
+      { intros w3 E1 E2 E3 E4 E5 E6 E7. destruct L2 as (S2 & P2 & H2a & H2b & H2c). destruct Hst as [Hst0 Hst].
         split.
-        - unfold LiveI, HT, polled, N in *. rewrite E1, E2, E3, E4, E5, Hsl. repeat split; auto; apply H2c; auto.
+        - unfold LiveI, HT, polled, N in *. rewrite E1, E2, E3, E4, E5, Hsl. split; [exact S2|]. split; [exact P2|]. split; [rewrite Hst0, <- C1, <- A; exact H2a|]. split; [exact H2b|].
+          intros c Hc Hoc. rewrite A, C1 in Hc. destruct (Hst c Hc Hoc) as [Ho Hmem]. rewrite Hmem. rewrite <- C1, <- A in Ho, Hc. rewrite <- (eq_trans A C1). apply H2c; auto.
         - split; [unfold N; rewrite E1, Hsl, A; reflexivity|]. unfold rem. rewrite E3, C.
-          split; [exact Hro|]. split; [exact Hri|]. split; [rewrite E6, F; reflexivity|]. split; [rewrite E7, G; reflexivity|]. rewrite E1. exact HQ2. }
+          split; [exact Hro|]. split; [exact Hri|]. split; [rewrite E6, F; reflexivity|]. split; [rewrite E7, G; reflexivity|]. rewrite E1. split; [exact HQ2|split; [exact Hst0|exact Hst]]. }
       destruct a as [|r o|].
-      - destruct (Hfin (set_cs (emit w2 (EAns (answer stp) :: eh)) s')) as (X1 & X2 & X3 & X4 & X5 & X6 & X7); try reflexivity.
-        split; [exact X1|split; [exact X2|split; [exact X3|split; [exact X4|split; [exact X5|split; [exact X6|split; [exact X7|split; [|split; [|intros w' X; discriminate]]]]]]]]].
-        2:{ intros HU. cbn. apply (US_cont (cs w2) i (answer stp) s' eh); [rewrite A, C1; exact HU|rewrite A, C1; exact Haw|exact Eh]. }
+      - destruct (Hfin (set_cs (emit w2 (EAns (answer stp) :: eh)) s')) as (X1 & X2 & X3 & X4 & X5 & X6 & X7 & X8); try reflexivity.
+        split; [exact X1|split; [exact X2|split; [exact X3|split; [exact X4|split; [exact X5|split; [exact X6|split; [exact X7|split; [|split; [|split; [intros w' X; discriminate|exact X8]]]]]]]]]].
+        2:{ intros HU. cbn. apply (US_cont (cs w2) i (answer stp) s' eh); [exact Hans|rewrite A, C1; exact HQ|rewrite A, C1; exact Hi|rewrite A, C1; exact HU|rewrite A, C1; exact Haw|exact Eh]. }
         cbn [awmono]. intros k Hk. unfold aw in *. cbn in Hk. destruct (Nat.eq_dec k i) as [->|Hne]; [exact Haw|].
         rewrite (handle_cont_other _ _ _ _ _ Eh k Hne) in Hk. rewrite A, C1 in Hk. exact Hk.
       - unfold apply_rearm.
         assert (Y : forall w3, cs w3 = s' -> sel w3 = sel w2 -> scripts w3 = scripts w2 -> handed w3 = handed w2 -> g_polled w3 = g_polled w2 ->
                 dropped w3 = dropped w2 -> finished w3 = finished w2 -> vlive w i (VReady w3 o)).
-        { intros w3 E1 E2 E3 E4 E5 E6 E7. destruct (Hfin w3 E1 E2 E3 E4 E5 E6 E7) as (X1 & X2 & X3 & X4 & X5 & X6 & X7).
-          split; [exact X1|split; [exact X2|split; [exact X3|split; [exact X4|split; [exact X5|split; [exact X6|split; [exact X7|split; [exact I|split; [intros _; exact I|intros w' X; discriminate]]]]]]]]]. }
+        { intros w3 E1 E2 E3 E4 E5 E6 E7. destruct (Hfin w3 E1 E2 E3 E4 E5 E6 E7) as (X1 & X2 & X3 & X4 & X5 & X6 & X7 & X8).
+          split; [exact X1|split; [exact X2|split; [exact X3|split; [exact X4|split; [exact X5|split; [exact X6|split; [exact X7|split; [exact I|split; [intros _; exact I|split; [intros w' X; discriminate|exact X8]]]]]]]]]]. }
         destruct (sel (set_cs (emit w2 (EAns (answer stp) :: eh)) s')); [destruct r|]; apply Y; reflexivity.
-      - exfalso. apply Hans. eapply abort_panic. exact Eh.
+      - exfalso. apply (okans_np _ Hans). eapply abort_panic. exact Eh.
     Qed.
 
     Definition vlive' (w: world) (r: vres) : Prop :=
       LiveI (vworld r) /\ N (vworld r) = N w /\ (forall k, rem (vworld r) k <= rem w k) /\ dropped (vworld r) = dropped w /\
-      finished (vworld r) = finished w /\ Q (cs (vworld r)) /\ awmono w r /\ usmono w r /\ (forall w', r <> VAbort w').
+      finished (vworld r) = finished w /\ Q (cs (vworld r)) /\ awmono w r /\ usmono w r /\ (forall w', r <> VAbort w') /\ stable (cs w) (cs (vworld r)).
     Lemma vlive_weaken w i r : vlive w i r -> vlive' w r.
     Proof.
-      intros (A & B & C & D & E & F & G & H & U & J). split; [exact A|]. split; [exact B|]. split; [|split; [exact E|split; [exact F|split; [exact G|split; [exact H|split; [exact U|exact J]]]]]].
-      intros k. destruct (Nat.eq_dec k i) as [->|Hne]; [rewrite D; lia|rewrite (C k Hne); lia].
+      intros (A & B & C & D & E & F & G & H & U & J & S). split; [exact A|]. split; [exact B|]. split; [|split; [exact E|split; [exact F|split; [exact G|split; [exact H|split; [exact U|split; [exact J|exact S]]]]]]].
+      intros k. destruct (Nat.eq_dec k (member (cs w) i)) as [->|Hne]; [rewrite D; lia|rewrite (C k Hne); lia].
     Qed.
     Lemma vlive'_refl w : LiveI w -> Q (cs w) -> vlive' w (VCont w).
     Proof.
       intros H HQ. split; [exact H|]. split; [reflexivity|]. split; [intros; cbn [vworld]; lia|]. split; [reflexivity|]. split; [reflexivity|].
-      split; [exact HQ|]. split; [cbn; auto|]. split; [intros HU; exact HU|]. intros w' X; discriminate.
+      split; [exact HQ|]. split; [cbn; auto|]. split; [intros HU; exact HU|]. split; [intros w' X; discriminate|apply stable_refl].
     Qed.
 
     Lemma visit_live w i pid : LiveI w -> Q (cs w) -> i < N w ->
       vlive' w (visit w i pid) /\
-      (nth i (bits w) false = true -> aw w i = true -> rem (vworld (visit w i pid)) i = rem w i - 1).
+      (nth i (bits w) false = true -> aw w i = true -> rem (vworld (visit w i pid)) (member (cs w) i) = rem w (member (cs w) i) - 1).
     Proof.
       intros HL HQ Hi. pose proof HL as (Hsel & _). unfold visit.
       destruct (any_per_iter && negb (any_ready w)) eqn:Eany.
       { split.
         - split; [exact HL|]. split; [reflexivity|]. split; [intros; cbn [vworld]; lia|]. split; [reflexivity|]. split; [reflexivity|].
-          split; [exact HQ|]. split; [cbn; auto|]. split; [|intros w' X; discriminate].
+          split; [exact HQ|]. split; [cbn; auto|]. split; [|split; [intros w' X; discriminate|apply stable_refl]].
           intros HU. apply andb_true_iff in Eany as [Eany _]. split; [exact Eany|exact HU].
         - intros Hb _. exfalso. rewrite (bit_any_ready w i Hsel Hb), andb_false_r in Eany. discriminate. }
       unfold clear_bit. rewrite Hsel.
       assert (HLb : forall b, LiveI (set_bits w b)) by (intros b; apply (LiveI_frame w); auto).
       assert (X : aw w i = true -> vlive' w (poll_child (set_bits w (upd (bits w) i false)) i pid) /\
-                  rem (vworld (poll_child (set_bits w (upd (bits w) i false)) i pid)) i = rem w i - 1).
+                  rem (vworld (poll_child (set_bits w (upd (bits w) i false)) i pid)) (member (cs w) i) = rem w (member (cs w) i) - 1).
       { intros Ha. pose proof (poll_child_live (set_bits w (upd (bits w) i false)) i pid (HLb _) HQ Hi Ha) as H.
         split; [apply (vlive_weaken _ i) in H; exact H|]. destruct H as (_ & _ & _ & D & _). exact D. }
       assert (Y : forall b, vlive' w (VCont (set_bits w b))).
       { intros b. split; [apply HLb|]. split; [reflexivity|]. split; [intros; cbn [vworld]; unfold rem; cbn; lia|]. split; [reflexivity|]. split; [reflexivity|].
-        split; [exact HQ|]. split; [cbn; auto|]. split; [intros HU; exact HU|]. intros w' E; discriminate. }
+        split; [exact HQ|]. split; [cbn; auto|]. split; [intros HU; exact HU|]. split; [intros w' E; discriminate|apply stable_refl]. }
       destruct clear_first.
       - destruct (nth i (bits w) false) eqn:Eb.
         + destruct (awaited (cs w) i) eqn:Ea; [destruct (X Ea) as [X1 X2]; split; [exact X1|intros _ _; exact X2]|]. split; [apply Y|]. intros _ Ha. unfold aw in Ha. congruence.
@@ -2569,31 +2600,34 @@ Section Scan.
     Lemma scan_live is : forall w pid, LiveI w -> Q (cs w) -> (forall i, In i is -> i < N w) ->
       vlive' w (scan w is pid) /\
       match scan w is pid with
-      | VCont w' | VPending w' => forall j, In j is -> aw w j = true -> nth j (bits w) false = true -> rem w' j <= rem w j - 1
+      | VCont w' | VPending w' => forall j, In j is -> aw w j = true -> nth j (bits w) false = true -> rem w' (member (cs w) j) <= rem w (member (cs w) j) - 1
       | _ => True
       end.
     Proof.
       induction is as [|i rest IH]; intros w pid HL HQ Hin; cbn [scan].
       { split; [apply vlive'_refl; auto|]. intros j []. }
       assert (Hi : i < N w) by (apply Hin; left; reflexivity).
-      destruct (visit_live w i pid HL HQ Hi) as [(V1 & V2 & V3 & V4 & V4' & VQ & VM & VU & V5) Vp].
+      destruct (visit_live w i pid HL HQ Hi) as [(V1 & V2 & V3 & V4 & V4' & VQ & VM & VU & V5 & VS) Vp].
       pose proof HL as (Hsel & _).
       pose proof (visit_other w i pid) as Ho.
       destruct (visit w i pid) as [w'|w'|w' o|w'] eqn:Ev; cbn [vworld awmono] in *; unfold usmono in VU.
       - assert (Hin' : forall j, In j rest -> j < N w') by (intros j Hj; rewrite V2; apply Hin; right; exact Hj).
-        destruct (IH w' pid V1 VQ Hin') as [(S1 & S2 & S3 & S4 & S4' & SQ & SM & SU & S5) Sp].
+        destruct (IH w' pid V1 VQ Hin') as [(S1 & S2 & S3 & S4 & S4' & SQ & SM & SU & S5 & SS) Sp].
+        assert (Hsl : slots (cs w') = slots (cs w)) by exact V2.
         split.
         + split; [exact S1|]. split; [congruence|]. split; [intros k; specialize (S3 k); specialize (V3 k); lia|]. split; [congruence|]. split; [congruence|].
-          split; [exact SQ|]. split; [|split; [|exact S5]].
+          split; [exact SQ|]. split; [|split; [|split; [exact S5|eapply stable_trans; eauto]]].
           * destruct (scan w' rest pid) as [w2|w2|w2 o|w2]; cbn [awmono] in *; auto.
           * unfold usmono in *. intros HU. apply SU, VU, HU.
         + destruct (scan w' rest pid) as [w2|w2|w2 o|w2]; cbn [vworld] in *; auto;
             (intros j Hj Ha Hb; destruct (Nat.eq_dec i j) as [->|Hne];
-             [specialize (Vp Hb Ha); specialize (S3 j); lia
+             [specialize (Vp Hb Ha); specialize (S3 (member (cs w) j)); lia
              |destruct Hj as [->|Hj]; [congruence|];
               destruct (Ho j w' Hsel (fun e => Hne (eq_sym e)) eq_refl) as [HB HA];
-              specialize (Sp j Hj (eq_trans HA Ha) (HB Hb)); specialize (V3 j); lia]).
-      - split; [split; [exact V1|split; [exact V2|split; [exact V3|split; [exact V4|split; [exact V4'|split; [exact VQ|split; [exact VM|split; [exact VU|exact V5]]]]]]]]|].
+              assert (Hjn : j < N w) by (apply Hin; right; exact Hj);
+              assert (Hmem : member (cs w') j = member (cs w) j) by (apply (proj2 VS j Hjn); apply aw_occ; [exact VQ|fold (N w'); rewrite V2; exact Hjn|unfold aw in *; congruence]);
+              specialize (Sp j Hj (eq_trans HA Ha) (HB Hb)); rewrite Hmem in Sp; specialize (V3 (member (cs w) j)); lia]).
+      - split; [split; [exact V1|split; [exact V2|split; [exact V3|split; [exact V4|split; [exact V4'|split; [exact VQ|split; [exact VM|split; [exact VU|split; [exact V5|exact VS]]]]]]]]]|].
         intros j Hj Ha Hb. exfalso.
         unfold visit in Ev. rewrite (bit_any_ready w j Hsel Hb), andb_false_r in Ev. unfold clear_bit in Ev. rewrite Hsel in Ev.
         assert (X : forall b r, poll_child (set_bits w b) i pid = r -> r <> VPending w').
@@ -2602,91 +2636,110 @@ Section Scan.
         destruct clear_first.
         + destruct (nth i (bits w) false); [|discriminate]. destruct (awaited (cs w) i); [eapply X; eauto|discriminate].
         + destruct (awaited (cs w) i); [|discriminate]. destruct (nth i (bits w) false); [eapply X; eauto|discriminate].
-      - split; [split; [exact V1|split; [exact V2|split; [exact V3|split; [exact V4|split; [exact V4'|split; [exact VQ|split; [exact I|split; [exact VU|exact V5]]]]]]]]|exact I].
+      - split; [split; [exact V1|split; [exact V2|split; [exact V3|split; [exact V4|split; [exact V4'|split; [exact VQ|split; [exact I|split; [exact VU|split; [exact V5|exact VS]]]]]]]]]|exact I].
       - exfalso. exact (V5 w' eq_refl).
     Qed.
 
-    Lemma LiveI_cs w s' : slots s' = N w -> LiveI w -> LiveI (set_cs w s').
-    Proof. intros E (A & B & C & D & F). unfold LiveI, HT, polled, N in *. cbn. rewrite E. repeat split; auto; apply F; auto. Qed.
+    Lemma LiveI_cs w s' : slots s' = N w -> stable (cs w) s' -> LiveI w -> LiveI (set_cs w s').
+    Proof.
+      intros E [Hst0 Hst] (A & B & C0 & C & F). unfold LiveI, HT, polled, N in *. cbn. rewrite E. split; [exact A|]. split; [exact B|]. split; [congruence|]. split; [exact C|].
+      intros c Hc Hoc. destruct (Hst c Hc Hoc) as [Ho Hm]. rewrite Hm. apply F; auto.
+    Qed.
 
     Theorem poll_live w pid np : LiveI w -> Q (cs w) -> TS (cs w) ->
       let w' := poll w pid np in
-      LiveI w' /\ N w' = N w /\ (forall k, rem w' k <= rem w k) /\ dropped w' = dropped w /\
+      LiveI w' /\ N w' = N w /\ (forall k, rem w' k <= rem w k) /\ dropped w' = dropped w /\ stable (cs w) (cs w') /\
       (g_retpend w' = true -> TS (cs w') /\ finished w' = finished w /\ (forall k, aw w' k = true -> aw w k = true) /\
-         forall j, j < N w -> aw w j = true -> nth j (bits w) false = true -> rem w' j <= rem w j - 1) /\
+         forall j, j < N w -> aw w j = true -> nth j (bits w) false = true -> rem w' (member (cs w) j) <= rem w (member (cs w) j) - 1) /\
       (g_retpend w' = false -> (forall o, final o = true) -> finished w' = true /\ exists o, In (EEndR o) (tr w')).
     Proof.
       intros HL HQ HT. cbv zeta. unfold poll.
       assert (Hmf : forall w1 o, LiveI w1 -> LiveI (mark_final w1 o) /\ N (mark_final w1 o) = N w1 /\ (forall k, rem (mark_final w1 o) k = rem w1 k) /\
                  dropped (mark_final w1 o) = dropped w1 /\ g_retpend (mark_final w1 o) = g_retpend w1 /\ (final o = true -> finished (mark_final w1 o) = true) /\
-                 tr (mark_final w1 o) = tr w1).
+                 tr (mark_final w1 o) = tr w1 /\ cs (mark_final w1 o) = cs w1).
       { intros w1 o H. unfold mark_final. destruct (final o); [|split; [exact H|repeat split; intros; discriminate]].
         split; [apply (LiveI_frame w1); auto|]. repeat split. }
       pose proof HL as (Hsel & _).
       destruct (pre_exit (cs w)) as [o|].
-      { match goal with |- context[mark_final ?W o] => destruct (Hmf W o) as (M1 & M2 & M3 & M4 & M5 & M6 & M7) end.
+      { match goal with |- context[mark_final ?W o] => destruct (Hmf W o) as (M1 & M2 & M3 & M4 & M5 & M6 & M7 & M8) end.
         { apply (LiveI_frame w); auto. }
         split; [exact M1|]. split; [rewrite M2; reflexivity|]. split; [intros k; rewrite M3; cbn; unfold rem; cbn; lia|].
-        split; [rewrite M4; reflexivity|]. rewrite M5. cbn. split; [intros; discriminate|]. intros _ Hf. split; [apply M6, Hf|].
+        split; [rewrite M4; reflexivity|]. split; [rewrite M8; cbn; apply stable_refl|]. rewrite M5. cbn. split; [intros; discriminate|]. intros _ Hf. split; [apply M6, Hf|].
         exists o. rewrite M7. cbn. apply in_or_app. right. right. left. reflexivity. }
       set (w0 := begin_poll w pid np).
       assert (HL0 : LiveI w0) by (apply (LiveI_frame w); auto).
       destruct (pre_any (cs w0) && negb (any_ready w0)) eqn:Epa.
-      { split; [apply (LiveI_frame w0); auto|]. split; [reflexivity|]. split; [intros; unfold rem; cbn; lia|]. split; [reflexivity|].
+      { split; [apply (LiveI_frame w0); auto|]. split; [reflexivity|]. split; [intros; unfold rem; cbn; lia|]. split; [reflexivity|]. split; [cbn; apply stable_refl|].
         split; [|cbn; intros; discriminate]. intros _. split; [exact HT|]. split; [reflexivity|]. split; [auto|].
         intros j Hj Ha Hb. exfalso. assert (B0 : nth j (bits w0) false = true) by exact Hb.
         rewrite (bit_any_ready w0 j Hsel B0), andb_false_r in Epa. discriminate. }
       destruct (order (cs w0)) as [[is s1]|] eqn:Eo; [|exfalso; exact (TS_order_some (cs w0) HT Eo)].
+      assert (HS1 : stable (cs w) s1) by (apply (order_stable (cs w0) is s1 HQ Eo)).
+      assert (Hs1 : slots s1 = slots (cs w)) by (apply (order_slots _ _ _ Eo)).
       assert (HU1 : US (cs (set_cs w0 s1))) by (cbn; eapply TS_order; eauto).
-      assert (HL1 : LiveI (set_cs w0 s1)) by (apply LiveI_cs; [apply (order_slots _ _ _ Eo)|exact HL0]).
+      assert (HL1 : LiveI (set_cs w0 s1)) by (apply LiveI_cs; [exact Hs1|exact HS1|exact HL0]).
       assert (HQ1 : Q (cs (set_cs w0 s1))) by (cbn; eapply Q_order; eauto).
       assert (Hin : forall i, In i is -> i < N (set_cs w0 s1)).
       { intros i Hi. unfold N; cbn. rewrite (order_slots (cs w0) is s1 Eo). apply (order_bound (cs w0) is s1 HQ Eo i Hi). }
-      destruct (scan_live is (set_cs w0 s1) pid HL1 HQ1 Hin) as [(S1 & S2 & S3 & S4 & S4' & SQ & SM & SU & S5) Sp]. specialize (SU HU1).
+      destruct (scan_live is (set_cs w0 s1) pid HL1 HQ1 Hin) as [(S1 & S2 & S3 & S4 & S4' & SQ & SM & SU & S5 & SS) Sp]. specialize (SU HU1).
       assert (N1 : N (set_cs w0 s1) = N w) by (unfold N; cbn; apply (order_slots _ _ _ Eo)).
       assert (D1 : dropped (set_cs w0 s1) = dropped w) by reflexivity.
       assert (F1 : finished (set_cs w0 s1) = finished w) by reflexivity.
       assert (R1 : forall k, rem (set_cs w0 s1) k = rem w k) by reflexivity.
       assert (A1 : forall k, aw (set_cs w0 s1) k = aw w k) by (intros k; unfold aw; cbn; apply (order_aw _ _ _ Eo)).
-      assert (Hcov : forall j, j < N w -> aw w j = true -> In j is /\ aw (set_cs w0 s1) j = true).
-      { intros j Hj Ha. split; [apply (order_cover (cs w0) is s1 HQ Eo j Hj Ha)|]. rewrite A1. exact Ha. }
+      assert (Hcov : forall j, j < N w -> aw w j = true -> In j is /\ aw (set_cs w0 s1) j = true /\ member s1 j = member (cs w) j).
+      { intros j Hj Ha. split; [apply (order_cover (cs w0) is s1 HQ Eo j Hj Ha)|]. split; [rewrite A1; exact Ha|].
+        apply (proj2 HS1 j Hj). apply aw_occ; [exact HQ1|rewrite Hs1; exact Hj|]. rewrite (order_aw _ _ _ Eo). exact Ha. }
+      assert (SS' : forall w1, N w1 = N (set_cs w0 s1) -> stable (cs (set_cs w0 s1)) (cs w1) -> stable (cs w) (cs w1)).
+      { intros w1 E X. eapply stable_trans; [exact Hs1|exact HS1|exact X]. }
+      cbn [cs set_cs] in SS.
       destruct (scan (set_cs w0 s1) is pid) as [w1|w1|w1 o|w1]; cbn [vworld awmono] in *.
       - pose proof (finish_slots (cs w1)) as Fs. pose proof (finish_aw (cs w1)) as Fa. pose proof (US_finish (cs w1) SQ SU) as Fu.
-        destruct (finish (cs w1)) as [s2 [x|]]; cbn [fst snd] in Fs, Fa, Fu.
-        + match goal with |- context[mark_final ?W x] => destruct (Hmf W x) as (M1 & M2 & M3 & M4 & M5 & M6 & M7) end.
+        pose proof (finish_stable (cs w1) SQ) as Fst.
+        assert (Hst2 : stable (cs w) (fst (finish (cs w1)))).
+        { eapply stable_trans; [|eapply stable_trans; [exact Hs1|exact HS1|exact SS]|exact Fst]. unfold N in *. cbn in S2. congruence. }
+        destruct (finish (cs w1)) as [s2 [x|]]; cbn [fst snd] in Fs, Fa, Fu, Fst, Hst2.
+        + match goal with |- context[mark_final ?W x] => destruct (Hmf W x) as (M1 & M2 & M3 & M4 & M5 & M6 & M7 & M8) end.
           { apply (LiveI_frame (set_cs w1 s2)); auto. apply LiveI_cs; auto. }
           split; [exact M1|]. split; [rewrite M2; unfold N in *; cbn; congruence|].
           split; [intros k; rewrite M3; specialize (S3 k); unfold rem in *; cbn in *; lia|]. split; [rewrite M4; cbn; congruence|].
+          split; [rewrite M8; cbn; exact Hst2|].
           rewrite M5. cbn. split; [intros; discriminate|]. intros _ Hf. split; [apply M6, Hf|].
           exists x. rewrite M7. cbn. apply in_or_app. right. left. reflexivity.
         + split; [apply (LiveI_frame (set_cs w1 s2)); auto; apply LiveI_cs; auto|]. split; [unfold N in *; cbn; congruence|].
-          split; [intros k; specialize (S3 k); unfold rem in *; cbn in *; lia|]. split; [cbn; congruence|].
+          split; [intros k; specialize (S3 k); unfold rem in *; cbn in *; lia|]. split; [cbn; congruence|]. split; [cbn; exact Hst2|].
           split; [|cbn; intros; discriminate]. intros _. split; [cbn; apply Fu; reflexivity|]. split; [cbn; congruence|]. split.
           * intros k Hk. unfold aw in Hk. cbn in Hk. rewrite (Fa k SQ) in Hk. rewrite <- A1. apply SM. exact Hk.
-          * intros j Hj Ha Hb. destruct (Hcov j Hj Ha) as [Hin' Ha']. specialize (Sp j Hin' Ha' Hb). unfold rem in *; cbn in *. lia.
+          * intros j Hj Ha Hb. destruct (Hcov j Hj Ha) as (Hin' & Ha' & Hmem). specialize (Sp j Hin' Ha' Hb). cbn [cs set_cs] in Sp. rewrite Hmem in Sp. unfold rem in *; cbn in *. lia.
       - split; [apply (LiveI_frame w1); auto|]. split; [unfold N in *; cbn; congruence|].
         split; [intros k; specialize (S3 k); unfold rem in *; cbn in *; lia|]. split; [cbn; congruence|].
+        split; [cbn; eapply stable_trans; [exact Hs1|exact HS1|exact SS]|].
         split; [|cbn; intros; discriminate]. intros _. split; [cbn; apply US_endp; apply SU|]. split; [cbn; congruence|]. split.
         * intros k Hk. rewrite <- A1. apply SM. exact Hk.
-        * intros j Hj Ha Hb. destruct (Hcov j Hj Ha) as [Hin' Ha']. specialize (Sp j Hin' Ha' Hb). unfold rem in *; cbn in *. lia.
-      - match goal with |- context[mark_final ?W o] => destruct (Hmf W o) as (M1 & M2 & M3 & M4 & M5 & M6 & M7) end.
-        { apply (LiveI_frame (set_cs w1 (after_stop (cs w1)))); auto. apply LiveI_cs; auto. apply after_slots. }
+        * intros j Hj Ha Hb. destruct (Hcov j Hj Ha) as (Hin' & Ha' & Hmem). specialize (Sp j Hin' Ha' Hb). cbn [cs set_cs] in Sp. rewrite Hmem in Sp. unfold rem in *; cbn in *. lia.
+      - assert (Hst2 : stable (cs w) (after_stop (cs w1))).
+        { eapply stable_trans; [|eapply stable_trans; [exact Hs1|exact HS1|exact SS]|apply after_stable; exact SQ]. unfold N in *. cbn in S2. congruence. }
+        match goal with |- context[mark_final ?W o] => destruct (Hmf W o) as (M1 & M2 & M3 & M4 & M5 & M6 & M7 & M8) end.
+        { apply (LiveI_frame (set_cs w1 (after_stop (cs w1)))); auto. apply LiveI_cs; [apply after_slots|apply after_stable; exact SQ|exact S1]. }
         split; [exact M1|]. split; [rewrite M2; unfold N in *; cbn; rewrite after_slots; congruence|].
         split; [intros k; rewrite M3; specialize (S3 k); unfold rem in *; cbn in *; lia|]. split; [rewrite M4; cbn; congruence|].
+        split; [rewrite M8; cbn; exact Hst2|].
         rewrite M5. cbn. split; [intros; discriminate|]. intros _ Hf. split; [apply M6, Hf|].
         exists o. rewrite M7. cbn. apply in_or_app. right. left. reflexivity.
       - exfalso. exact (S5 w1 eq_refl).
     Qed.
     (* ---- a wake-driven executor: fire the most recent waker of every child, then poll with the same task ---- *)
-    Hypothesis no_mutate : forall w m a sc, mutate w m a sc = w.
-    Definition latest (w: world) (c: nat) := length (nth c (handed w) []) - 1.
-    Lemma fire_latest_bit w c : K w -> LiveI w -> c < N w -> polled w c = true ->
-      nth c (bits (step_op w (OFire c (latest w c)))) false = true.
+    (* a script that may be handed to the combinator by a mutation (groups: insert) *)
+    Variable okscript : list step -> Prop.
+    Hypothesis mutate_live : forall w m a sc, Inv w -> LiveI w -> okscript sc -> LiveI (mutate w m a sc).
+    Definition latest (w: world) (m: nat) := length (nth m (handed w) []) - 1.
+    Lemma fire_latest_bit w c : K w -> LiveI w -> c < N w -> occ (cs w) c = true -> polled w c = true ->
+      nth c (bits (step_op w (OFire (member (cs w) c) (latest w (member (cs w) c))))) false = true.
     Proof.
-      intros HK (Hsel & _ & HL & HP & HH) Hc Hp. destruct (HH c Hc) as [H1 H2]. specialize (H2 Hp).
+      intros HK (Hsel & _ & _ & HP & HH) Hc Hoc Hp. destruct (HH c Hc Hoc) as (H1 & H2). specialize (H2 Hp).
       assert (Hlb : c < length (bits w)) by (destruct HK as ([_ Wb _ _ _] & _); unfold N in *; lia).
-      cbn [step_op]. unfold fire_handle, latest. cbn [handed emit].
-      destruct (nth c (handed w) []) as [|h0 l0] eqn:El; [contradiction|].
+      cbn [step_op]. unfold fire_handle, latest. cbn [handed emit]. set (m := member (cs w) c) in *.
+      destruct (nth m (handed w) []) as [|h0 l0] eqn:El; [contradiction|].
       assert (Hne : nth_error (h0 :: l0) (length (h0 :: l0) - 1) = Some (WSub c)).
       { assert (Hlt : length (h0 :: l0) - 1 < length (h0 :: l0)) by (cbn; lia).
         destruct (nth_error (h0 :: l0) (length (h0 :: l0) - 1)) as [x|] eqn:Ex; [|apply nth_error_None in Ex; lia].
@@ -2709,61 +2762,61 @@ Section Scan.
       - intros j Hj. destruct (fire_handle_keeps j (emit w [EO]) c k) as [(_ & KB & _) _]. apply KB. exact Hj.
       - eapply ext_trans; [|exact X]. exists [EO]. reflexivity.
     Qed.
-    Definition fair_fires (w: world) (l: list nat) : list op := map (fun c => OFire c (latest w c)) l.
-    Lemma run_fires l : forall w0 w, Inv w -> LiveI w -> handed w = handed w0 ->
+    Definition fair_fires (w: world) (l: list nat) : list op := map (fun c => OFire (member (cs w) c) (latest w (member (cs w) c))) l.
+    Lemma run_fires l : forall w0 w, Inv w -> LiveI w -> handed w = handed w0 -> cs w = cs w0 ->
       let w' := run_ops w (fair_fires w0 l) in
       Inv w' /\ LiveI w' /\ cs w' = cs w /\ scripts w' = scripts w /\ handed w' = handed w /\ g_polled w' = g_polled w /\ dropped w' = dropped w /\
       finished w' = finished w /\ (forall j, nth j (bits w) false = true -> nth j (bits w') false = true) /\
-      (forall c, In c l -> c < N w -> polled w c = true -> nth c (bits w') false = true) /\ ext w w'.
+      (forall c, In c l -> c < N w -> occ (cs w) c = true -> polled w c = true -> nth c (bits w') false = true) /\ ext w w'.
     Proof.
-      induction l as [|c l IH]; intros w0 w HI HL Hh; cbv zeta; unfold run_ops, fair_fires; cbn [map fold_left].
+      induction l as [|c l IH]; intros w0 w HI HL Hh Hc0; cbv zeta; unfold run_ops, fair_fires; cbn [map fold_left].
       { split; [exact HI|]. split; [exact HL|]. repeat split; auto. apply ext_refl. }
-      set (w1 := step_op w (OFire c (latest w0 c))).
-      destruct (fire_step_frame w c (latest w0 c)) as (A & B & C & D & E & F & G & M & X). fold w1 in A, B, C, D, E, F, G, M, X.
+      set (w1 := step_op w (OFire (member (cs w0) c) (latest w0 (member (cs w0) c)))).
+      destruct (fire_step_frame w (member (cs w0) c) (latest w0 (member (cs w0) c))) as (A & B & C & D & E & F & G & M & X). fold w1 in A, B, C, D, E, F, G, M, X.
       assert (HI1 : Inv w1) by (apply Inv_step; exact HI).
       assert (HL1 : LiveI w1) by (apply (LiveI_frame w); auto).
-      destruct (IH w0 w1 HI1 HL1 (eq_trans D Hh)) as (I2 & L2 & C2 & S2 & H2 & P2 & D2 & F2 & M2 & B2 & X2).
+      destruct (IH w0 w1 HI1 HL1 (eq_trans D Hh) (eq_trans A Hc0)) as (I2 & L2 & C2 & S2 & H2 & P2 & D2 & F2 & M2 & B2 & X2).
       unfold run_ops, fair_fires in *.
       split; [exact I2|]. split; [exact L2|]. split; [congruence|]. split; [congruence|]. split; [congruence|]. split; [congruence|].
       split; [congruence|]. split; [congruence|]. split; [intros j Hj; apply M2, M, Hj|]. split; [|eapply ext_trans; eauto].
-      intros c' [<-|Hin] Hc Hp.
-      - apply M2. unfold w1. assert (E0 : latest w0 c = latest w c) by (unfold latest; rewrite Hh; reflexivity). rewrite E0.
+      intros c' [<-|Hin] Hc Hoc Hp.
+      - apply M2. unfold w1. assert (E0 : latest w0 (member (cs w0) c) = latest w (member (cs w) c)) by (unfold latest; rewrite Hh, Hc0; reflexivity). rewrite E0, <- Hc0.
         apply fire_latest_bit; auto. apply HI.
-      - apply B2; auto; [unfold N in *; rewrite A; exact Hc|unfold polled in *; rewrite E; exact Hp].
+      - apply B2; auto; [unfold N in *; rewrite A; exact Hc|rewrite A; exact Hoc|unfold polled in *; rewrite E; exact Hp].
     Qed.
 
     Definition round (w: world) : world := run_ops w (fair_fires w (seq 0 (N w)) ++ [OPollSame]).
     Theorem round_live w : Inv w -> LiveI w -> TS (cs w) -> finished w = false -> dropped w = false ->
       let w' := round w in
-      Inv w' /\ LiveI w' /\ N w' = N w /\ (forall k, rem w' k <= rem w k) /\ dropped w' = false /\
+      Inv w' /\ LiveI w' /\ N w' = N w /\ (forall k, rem w' k <= rem w k) /\ dropped w' = false /\ stable (cs w) (cs w') /\
       (g_retpend w' = true -> TS (cs w') /\ finished w' = false /\ (forall k, aw w' k = true -> aw w k = true) /\
-         forall j, j < N w -> aw w j = true -> rem w' j <= rem w j - 1) /\
+         forall j, j < N w -> aw w j = true -> rem w' (member (cs w) j) <= rem w (member (cs w) j) - 1) /\
       (g_retpend w' = false -> (forall o, final o = true) -> finished w' = true /\ exists o, In (EEndR o) (tr w')).
     Proof.
       intros HI HL HT Hf Hd. cbv zeta. unfold round, run_ops. rewrite fold_left_app. cbn [fold_left].
-      destruct (run_fires (seq 0 (N w)) w w HI HL eq_refl) as (I2 & L2 & C2 & S2 & H2 & P2 & D2 & F2 & M2 & B2 & X2).
+      destruct (run_fires (seq 0 (N w)) w w HI HL eq_refl eq_refl) as (I2 & L2 & C2 & S2 & H2 & P2 & D2 & F2 & M2 & B2 & X2).
       unfold run_ops in *. set (wf := fold_left step_op (fair_fires w (seq 0 (N w))) w) in *.
       cbn [step_op]. rewrite F2, D2, Hf, Hd. cbn [orb].
       assert (HTf : TS (cs wf)) by (rewrite C2; exact HT).
       assert (HQf : Q (cs wf)) by apply I2.
-      match goal with |- context[poll wf ?a ?b] => destruct (poll_live wf a b L2 HQf HTf) as (A & B & C & D & E & F); set (w' := poll wf a b) in * end.
+      match goal with |- context[poll wf ?a ?b] => destruct (poll_live wf a b L2 HQf HTf) as (A & B & C & D & St' & E & F); set (w' := poll wf a b) in * end.
       assert (Nf : N wf = N w) by (unfold N; rewrite C2; reflexivity).
       split; [apply Inv_poll; exact I2|]. split; [exact A|]. split; [congruence|].
-      split; [intros k; specialize (C k); unfold rem in *; rewrite S2 in C; exact C|]. split; [congruence|].
+      split; [intros k; specialize (C k); unfold rem in *; rewrite S2 in C; exact C|]. split; [congruence|]. split; [rewrite <- C2; exact St'|].
       split; [|exact F].
       intros Hr. destruct (E Hr) as (E0 & E1 & E2 & E3). split; [exact E0|]. split; [congruence|]. split.
       - intros k Hk. specialize (E2 k Hk). unfold aw in *. rewrite C2 in E2. exact E2.
       - intros j Hj Ha. assert (Hb : nth j (bits wf) false = true).
         { destruct (polled w j) eqn:Ep.
-          - apply B2; auto. apply in_seq. lia.
+          - apply B2; auto; [apply in_seq; lia|apply aw_occ; [apply HI|exact Hj|exact Ha]].
           - apply M2. destruct HI as ((_ & _ & _ & H3 & _) & _). apply (H3 j Hj Ha Ep). }
-        specialize (E3 j ltac:(lia) ltac:(unfold aw in *; rewrite C2; exact Ha) Hb). unfold rem in *. rewrite S2 in E3. exact E3.
+        specialize (E3 j ltac:(lia) ltac:(unfold aw in *; rewrite C2; exact Ha) Hb). unfold rem in *. rewrite S2, C2 in E3. exact E3.
     Qed.
     Lemma round_finished w : Inv w -> LiveI w -> finished w = true ->
       let w' := round w in Inv w' /\ LiveI w' /\ N w' = N w /\ dropped w' = dropped w /\ finished w' = true /\ ext w w' /\ (forall k, rem w' k = rem w k).
     Proof.
       intros HI HL Hf. cbv zeta. unfold round, run_ops. rewrite fold_left_app. cbn [fold_left].
-      destruct (run_fires (seq 0 (N w)) w w HI HL eq_refl) as (I2 & L2 & C2 & S2 & H2 & P2 & D2 & F2 & M2 & B2 & X2).
+      destruct (run_fires (seq 0 (N w)) w w HI HL eq_refl eq_refl) as (I2 & L2 & C2 & S2 & H2 & P2 & D2 & F2 & M2 & B2 & X2).
       unfold run_ops in *. set (wf := fold_left step_op (fair_fires w (seq 0 (N w))) w) in *.
       cbn [step_op]. rewrite F2, Hf. cbn [orb].
       split; [exact I2|]. split; [exact L2|]. split; [unfold N; rewrite C2; reflexivity|]. split; [exact D2|]. split; [congruence|]. split; [exact X2|].
@@ -2779,13 +2832,23 @@ Section Scan.
       induction r as [|r IH]; intros w; [exists []; reflexivity|]. cbn [rounds]. destruct (IH (round w)) as [ops Hops].
       exists ((fair_fires w (seq 0 (N w)) ++ [OPollSame]) ++ ops). rewrite Hops. unfold round, run_ops. rewrite (fold_left_app step_op (fair_fires w (seq 0 (N w)) ++ [OPollSame]) ops w). reflexivity.
     Qed.
+    Definition nomut (o: op) : Prop := match o with OPollFresh | OPollSame | OFire _ _ => True | _ => False end.
+    Lemma rounds_is_run' r : forall w, exists ops, rounds r w = run_ops w ops /\ Forall nomut ops.
+    Proof.
+      induction r as [|r IH]; intros w; [exists []; split; [reflexivity|constructor]|]. cbn [rounds]. destruct (IH (round w)) as (ops & Hops & Hn).
+      exists ((fair_fires w (seq 0 (N w)) ++ [OPollSame]) ++ ops). split.
+      - rewrite Hops. unfold round, run_ops. rewrite (fold_left_app step_op (fair_fires w (seq 0 (N w)) ++ [OPollSame]) ops w). reflexivity.
+      - apply Forall_app. split; [|exact Hn]. apply Forall_app. split; [|repeat constructor].
+        unfold fair_fires. apply Forall_forall. intros o Ho. apply in_map_iff in Ho as (c & <- & _). exact I.
+    Qed.
     Definition returned (w: world) := exists o, In (EEndR o) (tr w).
     (* after r rounds: the combinator has returned its final result, or every child it still waits for has consumed r steps of its script *)
     Theorem rounds_progress w0 : Inv w0 -> LiveI w0 -> TS (cs w0) -> dropped w0 = false -> finished w0 = false -> (forall o, final o = true) ->
-      (forall r j, j < N w0 -> TS (cs (rounds r w0)) -> aw (rounds r w0) j = true -> 1 <= rem (rounds r w0) j) ->
+      (forall r j, j < N w0 -> TS (cs (rounds r w0)) -> aw (rounds r w0) j = true -> 1 <= rem (rounds r w0) (member (cs (rounds r w0)) j)) ->
       forall r, let w := rounds r w0 in
       Inv w /\ LiveI w /\ N w = N w0 /\ dropped w = false /\
-      ((finished w = true /\ returned w) \/ (finished w = false /\ TS (cs w) /\ forall j, j < N w0 -> aw w j = true -> rem w j + r <= rem w0 j)).
+      ((finished w = true /\ returned w) \/
+       (finished w = false /\ TS (cs w) /\ forall j, j < N w0 -> aw w j = true -> rem w (member (cs w) j) + r <= rem w0 (member (cs w) j))).
     Proof.
       intros HI HL HT Hd Hf Hfin Hpos r. induction r as [|r IH]; cbv zeta.
       { cbn [rounds]. split; [exact HI|]. split; [exact HL|]. split; [reflexivity|]. split; [exact Hd|]. right. split; [exact Hf|]. split; [exact HT|]. intros; lia. }
@@ -2793,25 +2856,28 @@ Section Scan.
       - destruct (round_finished _ I1 L1 F1) as (A & B & C & D & E & X & _).
         split; [exact A|]. split; [exact B|]. split; [congruence|]. split; [congruence|]. left. split; [exact E|].
         destruct R1 as [o Ho]. destruct X as [u Hu]. exists o. rewrite Hu. apply in_or_app. left. exact Ho.
-      - destruct (round_live _ I1 L1 T1 F1 D1) as (A & B & C & D & E & F & G).
+      - destruct (round_live _ I1 L1 T1 F1 D1) as (A & B & C & D & E & St' & F & G).
         split; [exact A|]. split; [exact B|]. split; [congruence|]. split; [exact E|].
         destruct (g_retpend (round (rounds r w0))) eqn:Er.
         + right. destruct (F eq_refl) as (F0 & F2 & F3 & F4). split; [exact F2|]. split; [exact F0|].
-          intros j Hj Ha. specialize (F3 j Ha). specialize (F4 j ltac:(lia) F3). specialize (M1 j Hj F3).
+          intros j Hj Ha. specialize (F3 j Ha).
+          assert (Hmem : member (cs (round (rounds r w0))) j = member (cs (rounds r w0)) j).
+          { apply (proj2 St' j); [fold (N (rounds r w0)); lia|]. apply aw_occ; [apply A|fold (N (round (rounds r w0))); lia|exact Ha]. }
+          rewrite Hmem. specialize (F4 j ltac:(lia) F3). specialize (M1 j Hj F3).
           pose proof (Hpos r j Hj T1 F3). lia.
         + left. apply (G eq_refl Hfin).
     Qed.
 
     (* so with scripts of length at most B and children that are awaited only while their script is not exhausted, B rounds suffice *)
     Theorem fair_executor_returns w0 B : Inv w0 -> LiveI w0 -> TS (cs w0) -> dropped w0 = false -> finished w0 = false -> (forall o, final o = true) ->
-      (forall j, rem w0 j <= B) -> 1 <= B ->
-      (forall r j, j < N w0 -> TS (cs (rounds r w0)) -> aw (rounds r w0) j = true -> 1 <= rem (rounds r w0) j) ->
+      (forall m, rem w0 m <= B) -> 1 <= B ->
+      (forall r j, j < N w0 -> TS (cs (rounds r w0)) -> aw (rounds r w0) j = true -> 1 <= rem (rounds r w0) (member (cs (rounds r w0)) j)) ->
       (forall s, Q s -> TS s -> exists j, j < slots s /\ awaited s j = true) ->
       let w := rounds B w0 in finished w = true /\ returned w /\ dropped w = false.
     Proof.
       intros HI HL HT Hd Hf Hfin HB HB1 Hpos Hsome. cbv zeta.
       destruct (rounds_progress w0 HI HL HT Hd Hf Hfin Hpos B) as (IB & _ & NB & D & [[F R]|(F & TB & M)]); [auto|].
-      exfalso. destruct (Hsome _ ltac:(apply IB) TB) as (j & Hj & Ha). fold (N (rounds B w0)) in Hj. rewrite NB in Hj. fold (aw (rounds B w0) j) in Ha. specialize (M j Hj Ha). specialize (Hpos B j Hj TB Ha). specialize (HB j). lia.
+      exfalso. destruct (Hsome _ ltac:(apply IB) TB) as (j & Hj & Ha). fold (N (rounds B w0)) in Hj. rewrite NB in Hj. fold (aw (rounds B w0) j) in Ha. specialize (M j Hj Ha). specialize (Hpos B j Hj TB Ha). specialize (HB (member (cs (rounds B w0)) j)). lia.
     Qed.
     (* LiveI is an invariant of every history (no TS needed: a poll that finds no order unwinds, which changes neither scripts nor handles) *)
     Lemma poll_LiveI w pid np : LiveI w -> Q (cs w) -> LiveI (poll w pid np).
@@ -2824,30 +2890,31 @@ Section Scan.
       assert (HL0 : LiveI w0) by (apply (LiveI_frame w); auto).
       destruct (pre_any (cs w0) && negb (any_ready w0)); [apply (LiveI_frame w0); auto|].
       destruct (order (cs w0)) as [[is s1]|] eqn:Eo; [|unfold unwind; apply (LiveI_frame w0); auto].
-      assert (HL1 : LiveI (set_cs w0 s1)) by (apply LiveI_cs; [apply (order_slots _ _ _ Eo)|exact HL0]).
+      assert (HL1 : LiveI (set_cs w0 s1)) by (apply LiveI_cs; [apply (order_slots _ _ _ Eo)|apply (order_stable (cs w0) is s1 HQ Eo)|exact HL0]).
       assert (HQ1 : Q (cs (set_cs w0 s1))) by (cbn; eapply Q_order; eauto).
       assert (Hin : forall i, In i is -> i < N (set_cs w0 s1)).
       { intros i Hi. unfold N; cbn. rewrite (order_slots (cs w0) is s1 Eo). apply (order_bound (cs w0) is s1 HQ Eo i Hi). }
-      destruct (scan_live is (set_cs w0 s1) pid HL1 HQ1 Hin) as [(S1 & S2 & _ & _ & _ & _ & _ & _ & S5) _].
+      destruct (scan_live is (set_cs w0 s1) pid HL1 HQ1 Hin) as [(S1 & S2 & _ & _ & _ & SQ & _ & _ & S5 & _) _].
       destruct (scan (set_cs w0 s1) is pid) as [w1|w1|w1 o|w1]; cbn [vworld] in *.
-      - pose proof (finish_slots (cs w1)) as Fs. destruct (finish (cs w1)) as [s2 [x|]]; cbn [fst] in Fs.
+      - pose proof (finish_slots (cs w1)) as Fs. pose proof (finish_stable (cs w1) SQ) as Fst. destruct (finish (cs w1)) as [s2 [x|]]; cbn [fst] in Fs, Fst.
         + apply Hmf. apply (LiveI_frame (set_cs w1 s2)); auto. apply LiveI_cs; auto.
         + apply (LiveI_frame (set_cs w1 s2)); auto. apply LiveI_cs; auto.
       - apply (LiveI_frame w1); auto.
-      - apply Hmf. apply (LiveI_frame (set_cs w1 (after_stop (cs w1)))); auto. apply LiveI_cs; auto. apply after_slots.
+      - apply Hmf. apply (LiveI_frame (set_cs w1 (after_stop (cs w1)))); auto. apply LiveI_cs; [apply after_slots|apply after_stable; exact SQ|exact S1].
       - exfalso. exact (S5 w1 eq_refl).
     Qed.
-    Lemma LiveI_step w o : Inv w -> LiveI w -> LiveI (step_op w o).
+    Definition okop (o: op) : Prop := match o with OMut _ _ sc => okscript sc | _ => True end.
+    Lemma LiveI_step w o : Inv w -> LiveI w -> okop o -> LiveI (step_op w o).
     Proof.
-      intros HI HL. destruct o as [| |c k| |m a sc]; cbn [step_op].
+      intros HI HL Hok. destruct o as [| |c k| |m a sc]; cbn [step_op].
       - destruct (finished w || dropped w); auto. apply poll_LiveI; auto. apply HI.
       - destruct (finished w || dropped w); auto. apply poll_LiveI; auto. apply HI.
       - destruct (fire_handle_live (emit w [EO]) c k) as (A & B & C & D & E & _). apply (LiveI_frame w); auto.
       - destruct (dropped w); apply (LiveI_frame w); auto.
-      - destruct (dropped w); auto. rewrite no_mutate. exact HL.
+      - destruct (dropped w); [exact HL|apply mutate_live; auto].
     Qed.
-    Lemma LiveI_run ops : forall w, Inv w -> LiveI w -> LiveI (run_ops w ops).
-    Proof. induction ops as [|o r IH]; intros w HI HL; cbn; auto. apply IH; [apply Inv_step; exact HI|apply LiveI_step; auto]. Qed.
+    Lemma LiveI_run ops : forall w, Inv w -> LiveI w -> Forall okop ops -> LiveI (run_ops w ops).
+    Proof. induction ops as [|o r IH]; intros w HI HL Hok; cbn; auto. inversion Hok; subst. apply IH; [apply Inv_step; exact HI|apply LiveI_step; auto|assumption]. Qed.
 
     (* ---- streams as well: the next result (an item, or the end) arrives within B rounds ---- *)
     Lemma poll_result_ext w pid np : sel w = true -> dropped w = false -> let w' := poll w pid np in
@@ -2869,8 +2936,8 @@ Section Scan.
     Qed.
 
     Theorem next_result w0 B : Inv w0 -> LiveI w0 -> TS (cs w0) -> dropped w0 = false -> finished w0 = false ->
-      (forall j, rem w0 j <= B) -> 1 <= B ->
-      (forall r j, j < N w0 -> TS (cs (rounds r w0)) -> aw (rounds r w0) j = true -> 1 <= rem (rounds r w0) j) ->
+      (forall m, rem w0 m <= B) -> 1 <= B ->
+      (forall r j, j < N w0 -> TS (cs (rounds r w0)) -> aw (rounds r w0) j = true -> 1 <= rem (rounds r w0) (member (cs (rounds r w0)) j)) ->
       (forall s, Q s -> TS s -> exists j, j < slots s /\ awaited s j = true) ->
       exists r, r < B /\ dropped (rounds (S r) w0) = false /\ g_retpend (rounds (S r) w0) = false /\
                 (forall r', r' <= r -> finished (rounds r' w0) = false) /\
@@ -2883,29 +2950,32 @@ Section Scan.
                                 exists u o, tr (rounds (S r0) w0) = tr (rounds r0 w0) ++ u ++ [EEndR o]) \/
                    (Inv (rounds r w0) /\ LiveI (rounds r w0) /\ N (rounds r w0) = N w0 /\ dropped (rounds r w0) = false /\ TS (cs (rounds r w0)) /\
                     (forall r', r' <= r -> finished (rounds r' w0) = false) /\
-                    forall j, j < N w0 -> aw (rounds r w0) j = true -> rem (rounds r w0) j + r <= rem w0 j)).
+                    forall j, j < N w0 -> aw (rounds r w0) j = true -> rem (rounds r w0) (member (cs (rounds r w0)) j) + r <= rem w0 (member (cs (rounds r w0)) j))).
       { induction r as [|r IH].
         - right. cbn [rounds]. split; [exact HI|]. split; [exact HL|]. split; [reflexivity|]. split; [exact Hd|]. split; [exact HT|].
           split; [intros r' Hr'; assert (r' = 0) by lia; subst; exact Hf|]. intros; lia.
         - destruct IH as [(r0 & Hr0 & X)|(I1 & L1 & N1 & D1 & T1 & F1 & M1)]; [left; exists r0; split; [lia|exact X]|].
           assert (Fr : finished (rounds r w0) = false) by (apply F1; lia).
-          destruct (round_live _ I1 L1 T1 Fr D1) as (A & B' & C & D & E & F & G). rewrite <- rounds_S in *.
+          destruct (round_live _ I1 L1 T1 Fr D1) as (A & B' & C & D & E & St' & F & G). rewrite <- rounds_S in *.
           destruct (g_retpend (rounds (S r) w0)) eqn:Er.
           + right. destruct (F eq_refl) as (F0 & F2 & F3 & F4).
             split; [exact A|]. split; [exact B'|]. split; [congruence|]. split; [exact E|]. split; [exact F0|].
             split; [intros r' Hr'; destruct (Nat.eq_dec r' (S r)) as [->|Hne]; [exact F2|apply F1; lia]|].
-            intros j Hj Ha. specialize (F3 j Ha). specialize (F4 j ltac:(lia) F3). specialize (M1 j Hj F3). pose proof (Hpos r j Hj T1 F3). lia.
+            intros j Hj Ha. specialize (F3 j Ha).
+            assert (Hmem : member (cs (rounds (S r) w0)) j = member (cs (rounds r w0)) j).
+            { apply (proj2 St' j); [fold (N (rounds r w0)); lia|]. apply aw_occ; [apply A|fold (N (rounds (S r) w0)); lia|exact Ha]. }
+            rewrite Hmem. specialize (F4 j ltac:(lia) F3). specialize (M1 j Hj F3). pose proof (Hpos r j Hj T1 F3). lia.
           + left. exists r. split; [lia|]. split; [exact E|]. split; [exact Er|]. split; [exact F1|].
             (* the poll of this round is the last operation of the round *)
             rewrite rounds_S in Er, E |- *. unfold round, run_ops in *. rewrite fold_left_app in *. cbn [fold_left] in *.
-            destruct (run_fires (seq 0 (N (rounds r w0))) (rounds r w0) (rounds r w0) I1 L1 eq_refl) as (I2 & L2 & C2 & S2 & H2 & P2 & D2 & F2 & M2 & B2 & [x Hx]).
+            destruct (run_fires (seq 0 (N (rounds r w0))) (rounds r w0) (rounds r w0) I1 L1 eq_refl eq_refl) as (I2 & L2 & C2 & S2 & H2 & P2 & D2 & F2 & M2 & B2 & [x Hx]).
             unfold run_ops in *. set (wf := fold_left step_op (fair_fires (rounds r w0) (seq 0 (N (rounds r w0)))) (rounds r w0)) in *.
             cbn [step_op] in *. rewrite F2, D2, Fr, D1 in *. cbn [orb] in *.
             match type of Er with g_retpend (poll wf ?a ?b) = false => destruct (poll_result_ext wf a b (proj1 L2) ltac:(congruence) Er E) as (u & o & Hu) end.
             exists (x ++ u), o. rewrite Hu, Hx, <- !app_assoc. reflexivity. }
       destruct (Hm B) as [(r0 & Hr0 & X)|(I1 & L1 & N1 & D1 & T1 & F1 & M1)]; [exists r0; split; [exact Hr0|exact X]|].
       exfalso. destruct (Hsome _ ltac:(apply I1) T1) as (j & Hj & Ha). fold (N (rounds B w0)) in Hj. rewrite N1 in Hj. fold (aw (rounds B w0) j) in Ha.
-      specialize (M1 j Hj Ha). specialize (Hpos B j Hj T1 Ha). specialize (HB j). lia.
+      specialize (M1 j Hj Ha). specialize (Hpos B j Hj T1 Ha). specialize (HB (member (cs (rounds B w0)) j)). lia.
     Qed.
   End Live.
 
